@@ -166,29 +166,27 @@ Definition const_plain (c : const) : bool :=
 Definition kw_named {A} (kw : option str * A) : bool :=
   match fst kw with Some _ => true | None => false end.
 
-(* TreeConverter().visit(node).
-   [strict = false] is the code as it is.  [strict = true] is the code with the proposed repair
-   (notes/proposed_fixes/C40-reject-odd-constants.diff): visit_Constant and visit_Call hand constants
-   that are not None/bool/int/finite float/str, and calls with a `**kwargs` argument, to generic_visit. *)
-Fixpoint convert (strict : bool) (e : expr) : cres tree :=
+(* TreeConverter().visit(node).  visit_Constant hands constants that are not None/bool/int/finite float/str, and
+   visit_Call hands calls with a `**kwargs` argument, to generic_visit (fix commits baa04cb, 23a92f9). *)
+Fixpoint convert (e : expr) : cres tree :=
   match e with
   | EBoolOp _ op vs =>
-      bindc (mapMc (convert strict) vs) (fun ts => Ok (TBoolOp op ts))
+      bindc (mapMc (convert) vs) (fun ts => Ok (TBoolOp op ts))
   | EBinOp p op l r =>
       match op with
       | BOther _ => Err (ErrUnsupported p)
       | BArith a =>
-          bindc (convert strict l) (fun tl => bindc (convert strict r) (fun tr => Ok (TBin a tl tr)))
+          bindc (convert l) (fun tl => bindc (convert r) (fun tr => Ok (TBin a tl tr)))
       end
   | EUnaryOp p op x =>
       match op with
       | UOther _ => Err (ErrUnsupported p)
-      | UNot => bindc (convert strict x) (fun t => Ok (TNot t))
+      | UNot => bindc (convert x) (fun t => Ok (TNot t))
       end
   | ECompare _ l ops cs =>
       match ops, cs with
       | [op], [c] =>
-          bindc (convert strict l) (fun tl => bindc (convert strict c) (fun tc => Ok (TCmp op tl tc)))
+          bindc (convert l) (fun tl => bindc (convert c) (fun tc => Ok (TCmp op tl tc)))
       | _, _ => Err ErrChained
       end
   | EName _ id =>
@@ -197,19 +195,19 @@ Fixpoint convert (strict : bool) (e : expr) : cres tree :=
       | None => Ok (TName id)
       end
   | EConstant p c =>
-      if strict && negb (const_plain c) then Err (ErrUnsupported p) else Ok (TConst c)
+      if negb (const_plain c) then Err (ErrUnsupported p) else Ok (TConst c)
   | EAttribute _ v a _ =>
-      bindc (convert strict v) (fun tv => Ok (TAttr tv a))
+      bindc (convert v) (fun tv => Ok (TAttr tv a))
   | EList _ es | ETuple _ es =>
-      bindc (mapMc (convert strict) es) (fun ts => Ok (TListN ts))
+      bindc (mapMc (convert) es) (fun ts => Ok (TListN ts))
   | ECall p f args kws =>
-      if strict && negb (forallb kw_named kws) then Err (ErrUnsupported p) else
+      if negb (forallb kw_named kws) then Err (ErrUnsupported p) else
       (* args first, then keywords, then the function: the order of the visits in visit_Call *)
-      bindc (mapMc (convert strict) args) (fun targs =>
+      bindc (mapMc (convert) args) (fun targs =>
       bindc (mapMc (fun kw => match kw with
-                              | (k, v) => bindc (convert strict v) (fun tv => Ok (k, tv))
+                              | (k, v) => bindc (convert v) (fun tv => Ok (k, tv))
                               end) kws) (fun tkws =>
-      bindc (convert strict f) (fun tf => Ok (TCall tf targs tkws))))
+      bindc (convert f) (fun tf => Ok (TCall tf targs tkws))))
   | EUnsupported p _ => Err (ErrUnsupported p)
   end.
 
@@ -235,11 +233,11 @@ Definition first_comment (comments : list str) : option str := find starts_with_
 
 (* parse_predicate_formula, given the parser's and the tokenizer's answers for the ($-replaced) text:
    [ast = None] when ast.parse raised SyntaxError, [comments] = the COMMENT tokens in order. *)
-Definition parse_predicate (strict : bool) (ast : option expr) (comments : list str) : cres tree :=
+Definition parse_predicate (ast : option expr) (comments : list str) : cres tree :=
   match ast with
   | None => Err ErrParser
   | Some e =>
-      bindc (convert strict e) (fun t =>
+      bindc (convert e) (fun t =>
         match first_comment comments with
         | Some c => Ok (TComment t (py_strip (tl c)))
         | None => Ok t
@@ -277,10 +275,10 @@ Inductive json_result :=
 | JSyntaxError (e : cerr)
 | JDumps (c : dumps_class) (v : pyval).
 
-Definition parse_predicate_json (strict formula_truthy : bool) (ast : option expr) (comments : list str)
+Definition parse_predicate_json (formula_truthy : bool) (ast : option expr) (comments : list str)
   : json_result :=
   if negb formula_truthy then JEmpty else
-  match parse_predicate strict ast comments with
+  match parse_predicate ast comments with
   | Err e => JSyntaxError e
   | Ok t => JDumps (dumps_outcome (to_py t)) (to_py t)
   end.
@@ -834,9 +832,9 @@ Record c40_case := {
   cc_supported : bool; cc_in_subset : bool
 }.
 
-Definition c40_case_ok (strict : bool) (c : c40_case) : bool :=
-  parse_result_eqb (parse_predicate strict (cc_ast c) (cc_comments c)) (cc_parse c)
-  && json_obs_eqb (observe_json (parse_predicate_json strict (cc_truthy c) (cc_ast c) (cc_comments c))) (cc_json c)
+Definition c40_case_ok (c : c40_case) : bool :=
+  parse_result_eqb (parse_predicate (cc_ast c) (cc_comments c)) (cc_parse c)
+  && json_obs_eqb (observe_json (parse_predicate_json (cc_truthy c) (cc_ast c) (cc_comments c))) (cc_json c)
   && match cc_ast c with
      | Some e => Bool.eqb (supported e) (cc_supported c) && Bool.eqb (in_subset e) (cc_in_subset c)
      | None => true
